@@ -238,7 +238,7 @@ impl<'a> Page<'a> {
     pub open spec fn b(&self) -> Seq<u8> { (*self.buf)@ }
 
 //@extract nervusdb-storage/src/index/btree.rs Page::new ret r
-//@| ensures r.b() == old(buf)@
+//@| ensures r.b() == old(buf)@, *r.buf == *old(buf), *final(r.buf) == *final(buf)
 //@end
 
 //@extract nervusdb-storage/src/index/btree.rs Page::kind ret r
@@ -452,27 +452,27 @@ pub fn v_copy_from_slice(dst: &mut [u8], src: &[u8])
 impl<'a> Page<'a> {
 //@extract nervusdb-storage/src/index/btree.rs Page::set_cell_content_begin
 //@| requires v <= 65535
-//@| ensures final(self).b().len() == old(self).b().len(), final(self).b().subrange(8, 10) == le16(v as u16),
+//@| ensures *final(final(self).buf) == *final(old(self).buf), final(self).b().len() == old(self).b().len(), final(self).b().subrange(8, 10) == le16(v as u16),
 //@|     forall|j: int| 0 <= j < 8192 && !(8 <= j < 10) ==> #[trigger] final(self).b()[j] == old(self).b()[j],
 //@end
 //@extract nervusdb-storage/src/index/btree.rs Page::set_cell_count
 //@| requires count <= 65535
-//@| ensures final(self).b().len() == old(self).b().len(), final(self).b().subrange(6, 8) == le16(count as u16),
+//@| ensures *final(final(self).buf) == *final(old(self).buf), final(self).b().len() == old(self).b().len(), final(self).b().subrange(6, 8) == le16(count as u16),
 //@|     forall|j: int| 0 <= j < 8192 && !(6 <= j < 8) ==> #[trigger] final(self).b()[j] == old(self).b()[j],
 //@end
 //@extract nervusdb-storage/src/index/btree.rs Page::set_right_sibling
-//@| ensures final(self).b().len() == old(self).b().len(), final(self).b().subrange(16, 24) == le64(id.0),
+//@| ensures *final(final(self).buf) == *final(old(self).buf), final(self).b().len() == old(self).b().len(), final(self).b().subrange(16, 24) == le64(id.0),
 //@|     forall|j: int| 0 <= j < 8192 && !(16 <= j < 24) ==> #[trigger] final(self).b()[j] == old(self).b()[j],
 //@end
 //@extract nervusdb-storage/src/index/btree.rs Page::slot_set ret r
 //@| requires pg_kind_ok(old(self).b()), pg_hdr(old(self).b()) + 2 * i + 2 <= 8192, v <= 65535,
-//@| ensures r is Ok, final(self).b().len() == 8192,
+//@| ensures *final(final(self).buf) == *final(old(self).buf), r is Ok, final(self).b().len() == 8192,
 //@|     final(self).b().subrange(pg_hdr(old(self).b()) + 2 * i, pg_hdr(old(self).b()) + 2 * i + 2) == le16(v as u16),
 //@|     forall|j: int| 0 <= j < 8192 && !(pg_hdr(old(self).b()) + 2 * i <= j < pg_hdr(old(self).b()) + 2 * i + 2) ==> #[trigger] final(self).b()[j] == old(self).b()[j],
 //@end
 //@extract nervusdb-storage/src/index/btree.rs Page::shift_slots_right ret r
 //@| requires pg_kind_ok(old(self).b()), pg_hdr(old(self).b()) + 2 * pg_count(old(self).b()) + 2 <= 8192,
-//@| ensures r is Ok <==> idx <= pg_count(old(self).b()), final(self).b().len() == 8192,
+//@| ensures *final(final(self).buf) == *final(old(self).buf), r is Ok <==> idx <= pg_count(old(self).b()), final(self).b().len() == 8192,
 //@|     r is Err ==> final(self).b() == old(self).b(),
 //@|     r is Ok ==> ({ let h = pg_hdr(old(self).b()); let c = pg_count(old(self).b());
 //@|         final(self).b().subrange(h + 2 * idx + 2, h + 2 * c + 2) == old(self).b().subrange(h + 2 * idx, h + 2 * c)
@@ -481,7 +481,7 @@ impl<'a> Page<'a> {
 //@end
 //@extract nervusdb-storage/src/index/btree.rs Page::shift_slots_left ret r
 //@| requires pg_kind_ok(old(self).b()), pg_hdr(old(self).b()) + 2 * pg_count(old(self).b()) <= 8192,
-//@| ensures r is Ok <==> idx < pg_count(old(self).b()), final(self).b().len() == 8192,
+//@| ensures *final(final(self).buf) == *final(old(self).buf), r is Ok <==> idx < pg_count(old(self).b()), final(self).b().len() == 8192,
 //@|     r is Err ==> final(self).b() == old(self).b(),
 //@|     r is Ok ==> ({ let h = pg_hdr(old(self).b()); let c = pg_count(old(self).b());
 //@|         final(self).b().subrange(h + 2 * idx, h + 2 * c - 2) == old(self).b().subrange(h + 2 * idx + 2, h + 2 * c)
@@ -557,7 +557,7 @@ impl<'a> Page<'a> {
 // C26.page.delete_from_leaf.spec — whole view, not just the touched cell.
 //@extract nervusdb-storage/src/index/btree.rs Page::delete_from_leaf ret r
 //@| requires leaf_wf(old(self).b()),
-//@| ensures r is Ok <==> idx < pg_count(old(self).b()),
+//@| ensures *final(final(self).buf) == *final(old(self).buf), r is Ok <==> idx < pg_count(old(self).b()),
 //@|     r is Err ==> final(self).b() == old(self).b(),
 //@|     r is Ok ==> leaf_wf(final(self).b()) && leaf_cells(final(self).b()) == leaf_cells(old(self).b()).remove(idx as int),
 //@proof after 1 "self.shift_slots_left(" raw
@@ -647,7 +647,7 @@ impl<'a> Page<'a> {
 // the cell and its slot fit into the free space.
 //@extract nervusdb-storage/src/index/btree.rs Page::leaf_insert_at ret r
 //@| requires leaf_wf(old(self).b()), key@.len() <= 0x7fff_ffff_ffff_ffff,
-//@| ensures r is Err ==> final(self).b() == old(self).b(),
+//@| ensures *final(final(self).buf) == *final(old(self).buf), r is Err ==> final(self).b() == old(self).b(),
 //@|     r is Ok ==> leaf_wf(final(self).b()) && leaf_cells(final(self).b()) == leaf_cells(old(self).b()).insert(idx as int, (key@, payload)),
 //@|     r is Ok <==> key@.len() <= u32::MAX && idx <= pg_count(old(self).b())
 //@|         && 24 + 2 * pg_count(old(self).b()) + 2 + vlen(key@.len() as u32) + key@.len() + 8 <= pg_begin(old(self).b()),
@@ -713,7 +713,7 @@ pub fn v_fill(buf: &mut [u8; PAGE_SIZE], x: u8)
 impl<'a> Page<'a> {
 // C26.page.init_leaf.spec — a fresh leaf is well formed, empty, and has no right sibling.
 //@extract nervusdb-storage/src/index/btree.rs Page::init_leaf
-//@| ensures leaf_wf(final(self).b()), pg_count(final(self).b()) == 0, leaf_cells(final(self).b()) =~= Seq::<(Seq<u8>, u64)>::empty(),
+//@| ensures *final(final(self).buf) == *final(old(self).buf), leaf_wf(final(self).b()), pg_count(final(self).b()) == 0, leaf_cells(final(self).b()) =~= Seq::<(Seq<u8>, u64)>::empty(),
 //@|     from_le64(final(self).b().subrange(16, 24)) == 0,
 //@prewrite "self.buf.fill(0);" => "v_fill(self.buf, 0);"
 //@prewrite "self.buf[OFF_MAGIC..OFF_MAGIC + 4].copy_from_slice(&MAGIC);" => "v_slice_write(self.buf, OFF_MAGIC, &MAGIC);"
@@ -860,7 +860,7 @@ impl<'a> Page<'a> {
 // C26.page.internal_insert_at.spec — whole view, like leaf_insert_at.
 //@extract nervusdb-storage/src/index/btree.rs Page::internal_insert_at ret r
 //@| requires internal_wf(old(self).b()), key@.len() <= 0x7fff_ffff_ffff_ffff,
-//@| ensures r is Err ==> final(self).b() == old(self).b(),
+//@| ensures *final(final(self).buf) == *final(old(self).buf), r is Err ==> final(self).b() == old(self).b(),
 //@|     r is Ok ==> internal_wf(final(self).b()) && int_seps(final(self).b()) == int_seps(old(self).b()).insert(idx as int, key@)
 //@|         && int_children(final(self).b()) == int_children(old(self).b()).insert(idx as int, right_child.0)
 //@|         && int_child(final(self).b(), 0) == int_child(old(self).b(), 0),
@@ -914,6 +914,69 @@ impl<'a> Page<'a> {
 //@|     }
 //@| }
 //@| lemma_internal_insert_view(b0, b, idx as int, key@, right_child.0);
+//@end
+}
+
+// ================================================================== tree level: BTree::delete over an abstract page store
+#[verifier::external_body]
+pub struct Pager { _p: core::marker::PhantomData<u8> }
+/// stored content of page `id` (the page-store view of unit c18_pager: Pager::page)
+pub uninterp spec fn pg(p: &Pager, id: u64) -> Seq<u8>;
+impl Pager {
+    //@trusted Pager::read_page: contract proved from the real body in unit c18_pager (a successful read returns the stored content of that page)
+    #[verifier::external_body]
+    pub fn read_page(&self, page_id: PageId) -> (r: Result<[u8; PAGE_SIZE]>)
+        ensures r is Ok ==> r->Ok_0@ == pg(self, page_id.0)
+    { unimplemented!() }
+    //@trusted Pager::write_page: contract proved from the real body in unit c18_pager (no other page changes; on success the page holds the given bytes)
+    #[verifier::external_body]
+    pub fn write_page(&mut self, page_id: PageId, page: &[u8; PAGE_SIZE]) -> (r: Result<()>)
+        ensures forall|o: u64| o != page_id.0 ==> #[trigger] pg(final(self), o) == pg(old(self), o),
+            r is Ok ==> pg(final(self), page_id.0) == page@,
+    { unimplemented!() }
+}
+//@item nervusdb-storage/src/index/btree.rs struct BTree
+/// page-local part of the tree invariant: every index page in the store is well formed and in order
+pub open spec fn tree_pages_ok(p: &Pager) -> bool {
+    forall|id: u64| pg_kind_ok(#[trigger] pg(p, id)) ==>
+        (pg(p, id)[4] == 0 ==> leaf_wf(pg(p, id)) && keys_sorted(leaf_cells(pg(p, id)))
+            // a leaf's right sibling link, when set, points at a leaf page
+            && (from_le64(pg(p, id).subrange(16, 24)) != 0 ==> pg_kind_ok(pg(p, from_le64(pg(p, id).subrange(16, 24)))) && pg(p, from_le64(pg(p, id).subrange(16, 24)))[4] == 0))
+        && (pg(p, id)[4] == 1 ==> internal_wf(pg(p, id)) && seps_sorted(int_seps(pg(p, id))))
+}
+//@trusted v_bytes_ne: `!=` on byte slices is sequence inequality (std)
+#[verifier::external_body]
+pub fn v_bytes_ne(a: &[u8], b: &[u8]) -> (r: bool)
+    ensures r == (a@ != b@)
+{ a != b }
+
+pub open spec fn only_changed(o: &Pager, n: &Pager, l: u64) -> bool { forall|x: u64| x != l ==> #[trigger] pg(n, x) == pg(o, x) }
+pub open spec fn deleted_at(o: &Pager, n: &Pager, l: u64, i: int, key: Seq<u8>, payload: u64) -> bool {
+    0 <= i < pg_count(pg(o, l)) && leaf_wf(pg(o, l)) && leaf_cells(pg(o, l))[i] == (key, payload)
+    && leaf_wf(pg(n, l)) && leaf_cells(pg(n, l)) == leaf_cells(pg(o, l)).remove(i) && only_changed(o, n, l)
+}
+impl BTree {
+// C26.tree.delete.exact — tree-level contract of BTree::delete over any page store whose index pages are
+// well formed: Ok(false) changes nothing; Ok(true) changed exactly one leaf page, by removing exactly one
+// entry, and that entry was (key, payload); no other page changes in any case.  (That a stored pair is
+// always FOUND needs the cross-page tree invariant and is not decided here.)  Termination not proved.
+//@extract nervusdb-storage/src/index/btree.rs BTree::delete ret r
+//@attr #[verifier::exec_allows_no_decreases_clause]
+//@| requires tree_pages_ok(old(pager)),
+//@| ensures
+//@|     (r is Ok && r->Ok_0 == false) ==> forall|o: u64| #[trigger] pg(final(pager), o) == pg(old(pager), o),
+//@|     (r is Ok && r->Ok_0 == true) ==> exists|l: u64, i: int| #[trigger] deleted_at(old(pager), final(pager), l, i, key@, payload),
+//@|     // a failed delete touched at most one page
+//@|     r is Err ==> forall|x: u64, y: u64| pg(final(pager), x) != pg(old(pager), x) && pg(final(pager), y) != pg(old(pager), y) ==> x == y,
+//@prewrite "if k != key {" => "if v_bytes_ne(k, key) {"
+//@loop 1
+//@| invariant tree_pages_ok(old(pager)), forall|o: u64| #[trigger] pg(pager, o) == pg(old(pager), o),
+//@| ensures pg_kind_ok(pg(old(pager), cur.0)) && pg(old(pager), cur.0)[4] == 0,
+//@loop 2
+//@| invariant tree_pages_ok(old(pager)), forall|o: u64| #[trigger] pg(pager, o) == pg(old(pager), o),
+//@|     buf@ == pg(old(pager), cur.0), leaf_wf(buf@), keys_sorted(leaf_cells(buf@)), idx <= 65535,
+//@proof before 1 "=return Ok(true);"
+//@| assert(deleted_at(old(pager), pager, cur.0, idx as int, key@, payload));
 //@end
 }
 
